@@ -402,6 +402,60 @@ def lit_tie(ctx: vlib.Ctx):
         shown.append(text)
     _corr(ctx, "render_lit-model-vs-get_field_default_literal", "PyStrLit PyLit", defs, cases, "render_case_ok ptab", "lit * list N",
           lambda i: shown[i][:80])
+    # ---- (T) validation: the branch table K10 read from get_field_default_literal, interpreted in Coq
+    #      (shape), against the real function on the same default values
+    import enum as _enum
+    import collections as _coll
+
+    class Fl(_enum.IntFlag):
+        A = 1
+        B = 4
+    NTp = _coll.namedtuple("NTp", ["a"])
+    extra = [Fl.A, Fl.A | Fl.B, (Fl.B, "x"), NTp(1), (NTp("a"), 2), float("nan"), (float("inf"), 1), Obj(), (Obj(), (Obj(), "a")), b"by", (b"b", ("c",))]
+    svals = [v for v in dvals if not any(isinstance(x, float) for x in _flat(v))] + extra
+    sreal = real_default_literal(svals)
+    cases, shown = [], []
+    for v, (text, ev) in zip(svals, sreal):
+        if text is None:
+            continue
+        ids = {}
+
+        def dv(x):
+            if isinstance(x, _enum.IntFlag):
+                return "(DIntFlag (%d)%%Z)" % int(x)
+            if isinstance(x, bool):
+                return "(DBool %s)" % ("true" if x else "false")
+            if x is None:
+                return "DNone"
+            if type(x) is str:
+                return "(DStr %s)" % coq_nl(cps(x))
+            if type(x) is int:
+                return "(DInt (%d)%%Z)" % x
+            if type(x) is tuple:
+                return "(DTuple [" + "; ".join(dv(y) for y in x) + "])"
+            ids[id(x)] = len(ids) + 1
+            return "(DOther %d)" % ids[id(x)]
+        term = dv(v)
+        # the real function's fresh names -> v_<identity index>, in order of import = order of traversal
+        names = [nm.name for nm in _flat(ev) if isinstance(nm, Nm)]
+        t2 = text
+        for k, nmn in enumerate(names):
+            t2 = t2.replace(nmn, "v_%d" % (k + 1))
+        cases.append(f"({term}, {coq_nl(cps(t2))})")
+        shown.append(text)
+    vlib.coq_make(["gen/K10.vo", "theories/DefaultLit.vo"])
+    bad, log = vlib.coq_bad_idx("c16_shape", "PyStrLit PyLit Splice DefaultLit", "From VerifGen Require Import K10.", defs, cases,
+                                "fun c => match shape default_literal_branches (fst c) with Some l => leqb (render_lit (tab_oracle ptab) l) (snd c) | None => false end",
+                                "dval * list N", shard=500, needs=["theories/PyLit.vo", "theories/DefaultLit.vo", "gen/K10.vo"])
+    nm_ = "K10-branch-table(shape)-vs-get_field_default_literal"
+    if bad is None:
+        ctx.correspondence(nm_, len(cases), -1, log)
+        ctx.not_shown("translation validation " + nm_, log)
+    else:
+        ctx.correspondence(nm_, len(cases), len(bad), "; ".join(shown[i][:60] for i in bad[:8]))
+        if bad:
+            ctx.not_shown("translation validation " + nm_, "; ".join(shown[i][:80] for i in bad[:8]))
+    ctx.count(n=len(cases))
     # ---- eval_lit vs CPython eval
     exprs = [py_render(v) for v in vals[: n // 2] if _names_ok(v)] + HAND_EXPRS
     cases, texts = [], []
@@ -709,6 +763,33 @@ def check():
     eq('from_dict', lambda: A.from_dict({}), A(S, (S, 1)))
     return OUT
 """
+    if how == "default-object":
+        return header(s) + """
+class Evil:
+    def __init__(self, s): self.s = s
+    def __repr__(self): return self.s
+    def __eq__(self, o): return isinstance(o, Evil) and o.s == self.s
+    def __hash__(self): return hash(self.s)
+class Fl(enum.IntFlag):
+    A = 1
+    B = 2
+@dataclass
+class A(DataClassDictMixin):
+    t: Tuple[Any, str] = (Evil(S), S)
+    u: Tuple[Tuple[str, ...], int] = ((S,), 1)
+    w: Tuple[str] = (S,)
+    e: Any = Evil(S)
+    f: Fl = Fl.B
+    b: Any = S.encode('utf-8', 'surrogatepass')
+    class Config(BaseConfig):
+        omit_default = True
+def check():
+    eq('defaults omitted', lambda: A().to_dict(), {})
+    eq('others kept', lambda: A((Evil(S + '~'), S), ((S, S), 1), (S + '~',), Evil(S + '~'), Fl.A, b'~').to_dict(),
+       {'t': [Evil(S + '~'), S], 'u': [[S, S], 1], 'w': [S + '~'], 'e': Evil(S + '~'), 'f': 1, 'b': b'~'})
+    eq('from_dict', lambda: A.from_dict({}), A())
+    return OUT
+"""
     raise ValueError(how)
 
 
@@ -811,12 +892,14 @@ def gen_case(rng, s, pos):
         return ("discriminator-" + how, "", src_discriminator(s, how))
     if pos == "enum-name":
         return ("literal-enum-member-name", "", src_enum_member_name(s))
+    if pos == "default-object":
+        return (pos, "", src_literal(s, pos))
     if pos in ("literal-str", "literal-bytes", "enum-value", "default"):
         return (pos, "", src_literal(s, pos.replace("literal-", "")))
     raise ValueError(pos)
 
 
-POSITIONS = ["alias", "alias2", "typeddict", "discriminator", "literal-str", "literal-bytes", "enum-value", "default", "enum-name"]
+POSITIONS = ["alias", "alias2", "typeddict", "discriminator", "literal-str", "literal-bytes", "enum-value", "default", "enum-name", "default-object"]
 
 
 def in_domain(s: str, pos: str) -> bool:
@@ -894,7 +977,8 @@ def oracle(ctx: vlib.Ctx, boost: bool = False):
 # the check
 # ---------------------------------------------------------------------------
 
-THEOREMS = ["C16_repr_lex", "C16_ascii_lex", "C16_repr_bytes_lex", "C16_repr_clean", "C16_raw_plain_lex",
+THEOREMS = ["C16_render_eval", "C16_site_value", "C16_default_branches_safe", "C16_default_literal_general",
+            "C16_default_literal", "C16_repr_tuple_refuted", "C16_repr_lex", "C16_ascii_lex", "C16_repr_bytes_lex", "C16_repr_clean", "C16_raw_plain_lex",
             "C16_raw_refuted", "C16_sites", "C16_site_literal", "C16_site_guarded", "C16_ident_char_inert",
             "C16_site_literal_bytes"]
 
@@ -927,7 +1011,8 @@ def run(ctx: vlib.Ctx):
         "surrogates, U+0085/2028, escape look-alikes, code fragments closing the literal with a sentinel side effect) + random "
         "strings over that alphabet + random code points; each corpus string goes to every position (metadata/Annotated/Config "
         "alias x field kind (incl. Any / pass_through identity unpackers) x option subset, TypedDict key, discriminator field "
-        "Config/Annotated/forbid, Literal str/bytes, enum value, enum member NAME inside Literal, default value), random strings to two positions each; distinct = (position, string); named-tuple keys: identifiers only")
+        "Config/Annotated/forbid, Literal str/bytes, enum value, enum member NAME inside Literal, default value, default tuples holding objects whose "
+        "__repr__ is the string / IntFlag / bytes defaults), random strings to two positions each; distinct = (position, string); named-tuple keys: identifiers only")
     ctx.assumptions += [
         "the printable oracle of repr is arbitrary in the theorems except that lone surrogates are not printable (checked for str.isprintable on all code points each run)",
         "strings are sequences of code points < 0x110000; bytes are < 256",
